@@ -6,15 +6,21 @@ import random
 import common as C
 
 PID = "C16"
-DRIVER = [("C16", "TfPwaV.Model.VarsF", "VarsF.handle")]
-LEAN_TARGETS = ["TfPwaV.Props.C16", "TfPwaV.Model.VarsF"]
-PROP_MODULES = ["TfPwaV.Props.C16"]
-ALL_MODULES = ["TfPwaV.Model.Vars", "TfPwaV.Model.VarsF", "TfPwaV.Proofs.Vars", "TfPwaV.Proofs.VarsFixed", "TfPwaV.Proofs.PolarBound",
-               "TfPwaV.Props.C16"]
+DRIVER = [("C16", "TfPwaV.Model.VarsF", "VarsF.handle"),
+          ("C16S", "TfPwaV.Model.VarsSepF", "VarsSepF.handle"),
+          ("C16E", "TfPwaV.Model.BExprH", "BExprH.handle")]
+LEAN_TARGETS = ["TfPwaV.Props.C16", "TfPwaV.Props.C16b", "TfPwaV.Props.C16c", "TfPwaV.Model.VarsF", "TfPwaV.Model.VarsSepF",
+                "TfPwaV.Gen.BExprF", "TfPwaV.Model.BExprH"]
+PROP_MODULES = ["TfPwaV.Props.C16", "TfPwaV.Props.C16b", "TfPwaV.Props.C16c"]
+ALL_MODULES = ["TfPwaV.Model.Vars", "TfPwaV.Model.VarsF", "TfPwaV.Model.VarsSep", "TfPwaV.Model.VarsSepF", "TfPwaV.Model.BExprH",
+               "TfPwaV.Proofs.Vars", "TfPwaV.Proofs.VarsFixed", "TfPwaV.Proofs.VarsTied", "TfPwaV.Proofs.PolarBound",
+               "TfPwaV.Proofs.BExpr", "TfPwaV.Props.C16", "TfPwaV.Props.C16b", "TfPwaV.Props.C16c"]
 ASSUMPTIONS = [
     "histories follow the order a configuration applies operations (create; fix/free; tie; bound; then arbitrary interleavings) — `Vars.WellPhased`; set_fix(unfix=True) after a tie is outside the quantifier",
     "inv_reachable_patched (the tree after 647ec00) needs `WellNamed`: every tie call lists existing parameters of the right kind (real ties: bound names; cplx ties / set_share_r: complex parameters) and no name is both a real variable and the base c of a complex one (c and c+'r' both bound). Without it the statement is false for the model AND the code (theorem well_named_needed: add_real_var('a'), add_complex_var('a'), ... leaves two free names on one object). All generated histories satisfy WellNamed (counted in coverage.histories_outside_WellNamed)",
-    "a complex parameter is tied either as a whole (set_same(cplx=True) / Variable.sameas) or through its parts (set_same of real names, set_share_r), not both, and parameters tied as a whole are in the same coordinate system when tied (the generators respect this; the code does not check it)",
+    "tied_stays_tied_partial (every same_list group stays bound to one object) needs in addition `WellSeparated`: a complex parameter is tied either as a whole (set_same(cplx=True) / Variable.sameas) or through its parts (set_same of real names, set_share_r), not both. Outside it the statement is false for the model AND the code (theorem tied_stays_tied_refuted_outside, finding set_same:whole-and-part:tie-broken); 'counted once' (counted_once_every_named_history) does not need it. 1/6 of the correspondence histories and 1/5 of the search histories ('mixed' mode) are outside WellSeparated (coverage.histories_outside_WellSeparated); tieOK / sepOK are evaluated by the Lean definitions on the model (C16S hyp) and cross-checked against their Python renderings on the real object",
+    "parameters tied as a whole are in the same coordinate system when tied (the generators respect this; the code does not check it)",
+    "custom Bound expressions: the grammar x, numbers, a, b, + - * /, ** integer, exp log sin cos tanh sqrt (own recursive-descent parser, a/b replaced by the numbers get_func substitutes); diff_is_deriv is about the textbook rules on this AST over the reals with explicit side conditions (denominators != 0, log/sqrt arguments > 0); that sympy's diff(f, x) computes the same function is validated on grids (1e-12), not proved; the inverse (sympy.solve) of a custom expression is validated by x2y(y2x(y)) = y only",
     "pre_trans is empty, complex_vars values are booleans (never lists), no rename_var/remove_var/combineVM in a history, built-in Bound expressions only inside histories (custom expressions: grid check only)",
     "the random source of add_*_var / refresh_vars is an explicit input (tf.random.uniform / tf.random.normal / numpy.random.chisquare are replaced by seeded streams in the harness process); the rejection loop of refresh_vars for (mu, sigma) inside a bound is assumed to accept the first draw; a Bound(None, None) entry in refresh_vars (`break` in hash order) is excluded",
     "refresh_vars iterates Python sets of names: the model iterates in dict order, which is equivalent when no two trainable names share a variable object (theorem inv_reachable)",
@@ -371,7 +377,8 @@ def rangle(rnd):
 
 
 class Gen:
-    """mode: 'safe' avoids the input classes of the listed findings, 'wild' does not; pure: no transcendental op"""
+    """mode: 'safe' avoids the input classes of the listed findings, 'wild' does not, 'mixed' additionally ties complex
+    parameters both as a whole and through their parts (outside Vars.WellSeparated); pure: no transcendental op"""
 
     def __init__(self, rnd, mode="wild", pure=False):
         self.rnd, self.mode, self.pure = rnd, mode, pure
@@ -401,6 +408,8 @@ class Gen:
         nv = rnd.randint(2, 6)
         for i in range(nv):
             r = rnd.random()
+            if self.mode == "mixed" and i < 2:
+                r = 0.4 + 0.4 * r  # at least two complex parameters
             if r < 0.4:
                 name = "p%d" % i
                 value = rval(rnd) if rnd.random() < 0.6 else None
@@ -481,10 +490,11 @@ class Gen:
     def tie(self):
         rnd = self.rnd
         safe = self.mode == "safe"
-        for _ in range(rnd.randint(0, 4) if not safe else rnd.randint(0, 3)):
+        mixed = self.mode == "mixed"
+        for _ in range(rnd.randint(2, 6) if mixed else (rnd.randint(0, 4) if not safe else rnd.randint(0, 3))):
             r = rnd.random()
             if r < 0.55:
-                cand = [n for n in self.reals if not (n[:-1] in self.cplx_tied and n[:-1] in self.cnames)]
+                cand = [n for n in self.reals if mixed or not (n[:-1] in self.cplx_tied and n[:-1] in self.cnames)]
                 if safe:
                     cand = list(self.plain)
                 if len(cand) < 2:
@@ -505,7 +515,7 @@ class Gen:
                 self.ops.append({"k": "same", "names": names, "cplx": False})
                 self.merge_classes(names)
             elif r < 0.8:
-                cand = [c for c in self.cnames if c + "r" not in self.real_tied and c + "i" not in self.real_tied]
+                cand = [c for c in self.cnames if mixed or (c + "r" not in self.real_tied and c + "i" not in self.real_tied)]
                 if safe:
                     cand = [c for c in cand if c not in self.cplx_tied]
                 if len(cand) < 2:
@@ -534,7 +544,7 @@ class Gen:
                 self.ops.append({"k": "same", "names": names, "cplx": True})
                 self.cplx_tied.update(names)
             else:
-                cand = [c for c in self.cnames if c not in self.cplx_tied]
+                cand = [c for c in self.cnames if mixed or c not in self.cplx_tied]
                 if len(cand) < 2:
                     continue
                 names = rnd.sample(cand, rnd.choice([2, 2, 3]) if len(cand) >= 3 else 2)
@@ -750,21 +760,38 @@ def well_named_op(op, real):
     return True
 
 
+def well_sep_op(op, real):
+    """Python rendering of Vars.sepOK (hypothesis of tied_stays_tied_partial) for the calls that are ONE model call"""
+    k = op["k"]
+    if k not in ("same", "share"):
+        return True
+    keys = set(real.vm.variables)
+    is_c = lambda n: n + "r" in keys and n + "i" in keys
+    members = [m for g in real.vm.same_list for m in g]
+    sep_real = lambda names: all(not (is_c(c) and n in (c + "r", c + "i")) for n in names for c in members)
+    if k == "share":
+        return sep_real([n + "r" for n in op["names"]])
+    if op["cplx"]:
+        return all(m not in (n + "r", n + "i") for n in op["names"] for m in members)
+    return sep_real(op["names"])
+
+
 def run_history_real(polar0, ops, hook):
     """-> list of (out, dump, tainted, y2x_out), list of model token lists, index map"""
     real = Real(polar0, hook)
-    steps, toks, last = [], [], []
+    steps, toks, last, hyps = [], [], [], []
     tainted = False
     for op in ops:
         if not well_named_op(op, real):
             OUTSIDE_WELL_NAMED.append(op)
+        hyps.append((well_named_op(op, real), well_sep_op(op, real)))
         tainted = tainted or is_transc(op, real)
         y2x_out = op["k"] in ("get", "gav") and bool(op.get("vif")) and bool(real.vm.bnd_dic)
         out, t = real.apply(op)
         toks += t
         last.append(len(toks) - 1)
         steps.append((out, real.dump(), tainted, y2x_out))
-    return steps, toks, last
+    return steps, toks, last, hyps
 
 
 def bound_grid(ctx, res):
@@ -826,34 +853,244 @@ def bound_grid(ctx, res):
     return len(lines)
 
 
+# ----------------------------------------------------------------------------------------------
+# custom bound expressions: own parser of the grammar -> prefix AST for TfPwaV.BExprF (templates/BExpr.lean.in)
+# ----------------------------------------------------------------------------------------------
+
+BEXPR_FUNCS = ("exp", "log", "sin", "cos", "tanh", "sqrt")
+
+
+def bexpr_tokens(src, lo, hi):
+    """recursive-descent parser (Python precedence) of  + - * / ** ( ) numbers x a b exp log sin cos tanh sqrt  ->
+    prefix token list; a, b are replaced by the numbers Bound.get_func substitutes (lower / upper, -1e9 / 1e9 for None)"""
+    import re
+    toks = re.findall(r"\s*(\*\*|[-+*/()]|[A-Za-z_]\w*|\d+\.?\d*(?:[eE][-+]?\d+)?|\.\d+)", src)
+    if "".join(toks) != "".join(src.split()):
+        raise ValueError("cannot tokenise %r" % src)
+    pos = [0]
+    const = lambda v: ["c", C.f2h(float(v))]
+
+    def peek():
+        return toks[pos[0]] if pos[0] < len(toks) else None
+
+    def take(t=None):
+        v = peek()
+        if v is None or (t is not None and v != t):
+            raise ValueError("parse error in %r at token %d" % (src, pos[0]))
+        pos[0] += 1
+        return v
+
+    def expr():
+        e = term()
+        while peek() in ("+", "-"):
+            op = take()
+            e = ["add" if op == "+" else "sub"] + e + term()
+        return e
+
+    def term():
+        e = unary()
+        while peek() in ("*", "/"):
+            op = take()
+            e = ["mul" if op == "*" else "div"] + e + unary()
+        return e
+
+    def unary():
+        if peek() == "-":
+            take()
+            return ["neg"] + unary()
+        if peek() == "+":
+            take()
+            return unary()
+        return power()
+
+    def power():
+        e = atom()
+        if peek() == "**":
+            take()
+            neg = False
+            if peek() == "-":
+                take()
+                neg = True
+            n = take()
+            if not n.isdigit():
+                raise ValueError("only integer powers: %r" % src)
+            e = ["pow", n] + e
+            if neg:
+                e = ["div"] + const(1.0) + e
+        return e
+
+    def atom():
+        t = take()
+        if t == "(":
+            e = expr()
+            take(")")
+            return e
+        if t == "x":
+            return ["x"]
+        if t == "a":
+            return const(lo if lo is not None else -1e9)
+        if t == "b":
+            return const(hi if hi is not None else 1e9)
+        if t in BEXPR_FUNCS:
+            take("(")
+            e = expr()
+            take(")")
+            return [t] + e
+        if t[0].isdigit() or t[0] == ".":
+            return const(t)
+        raise ValueError("unknown name %r in %r" % (t, src))
+
+    e = expr()
+    if peek() is not None:
+        raise ValueError("trailing input in %r" % src)
+    return e
+
+
+_BOUNDS = {}
+
+
+def get_bound(lo, hi, func):
+    from tf_pwa.variable import Bound
+    key = (lo, hi, func)
+    if key not in _BOUNDS:
+        _BOUNDS[key] = Bound(lo, hi, func=func)
+    return _BOUNDS[key]
+
+
+CUSTOM_SPECS_QUICK = [
+    ((0.0, 3.0), "a+(b-a)/(1+exp(-x))"),   # a = 0.0: a falsy end point must not be read as "no bound"
+    ((0.5, None), "a+exp(x)"),
+    ((None, 2.0), "b-exp(-x)"),
+    ((-1.0, 1.5), "(a+b)/2+(b-a)/2*tanh(x)"),
+    # the three built-in forms, through the generic expression path
+    ((-1.0, 2.0), "(b-a)*(sin(x)+1)/2+a"),
+    ((0.5, None), "a-1+sqrt(x**2+1)"),
+    ((None, 3.0), "b+1-sqrt(x**2+1)"),
+]
+CUSTOM_SPECS_MORE = [
+    ((-2.0, 5.0), "a+(b-a)/(1+exp(-x))"),
+    ((None, -0.5), "b-exp(x)"),
+    ((-1.0, 1.0), "(b-a)*(tanh(x)+1)/2+a"),
+    ((0.0, None), "a+log(1+exp(x))"),
+    ((0.0, 2.0), "a+(b-a)*(x/sqrt(1+x**2)+1)/2"),
+    ((-3.0, None), "a+exp(2*x-1)"),
+    ((1.0, 4.0), "a+(b-a)*(1+cos(x))/2"),
+]
+
+
+def bound_expr_grid(ctx, res):
+    """get_x2y / get_dydx / get_d2ydx2 of a real Bound with a custom expression (sympy: f, diff(f), diff(diff(f))) vs
+    eval e / eval (diff e) / eval (diff (diff e)) of the Float instance of the Lean AST (theorem C16b.diff_is_deriv is
+    about the same text at R).  1e-12 relative to max(1, |value|, |a|, |b|)."""
+    rnd = random.Random(ctx.seed * 104729 + 11)
+    specs = list(CUSTOM_SPECS_QUICK) + ([] if ctx.quick and not ctx.suspect else list(CUSTOM_SPECS_MORE))
+    lines, meta = [], []
+    nskip = 0
+    for (lo, hi), func in specs:
+        try:
+            toks = bexpr_tokens(func, lo, hi)
+            b = get_bound(lo, hi, func)
+        except Exception as e:
+            res.broke("custom bound expression cannot be built", {"lo": lo, "hi": hi, "func": func, "error": "%s: %s" % (type(e).__name__, str(e)[:100])})
+            continue
+        xs = [0.0, 1.0, -1.0, 0.3, 2.5, -4.0, math.pi / 2, 1e-3, 6.0] + [rnd.uniform(-6, 6) for _ in range(10 if ctx.quick else 30)]
+        for order, f in ((0, b.get_x2y), (1, b.get_dydx), (2, b.get_d2ydx2)):
+            for xv in xs:
+                try:
+                    iv = float(f(xv))
+                except Exception as e:
+                    iv = e
+                lines.append("C16E eval %d %s %s" % (order, C.f2h(xv), " ".join(toks)))
+                lines.append("C16E dom %d %s %s" % (order, C.f2h(xv), " ".join(toks)))
+                meta.append((lo, hi, func, order, xv, iv))
+    out = ctx.model.query(lines)
+    nbad, first = 0, None
+    for (lo, hi, func, order, xv, iv), ev, dm in zip(meta, out[0::2], out[1::2]):
+        if ev == "bad-op" or dm == "bad-op":
+            res.broke("model driver bad-op", "C16E %r" % func)
+            return 0
+        if dm != "1":
+            nskip += 1   # outside the domain of definition of the expression (side conditions of diff_is_deriv)
+            continue
+        mv = C.h2f(ev)
+        scale = max(1.0, abs(mv), abs(lo) if lo is not None else 0.0, abs(hi) if hi is not None else 0.0)
+        ok = (not isinstance(iv, Exception)) and abs(iv - mv) <= 1e-12 * scale
+        if not ok:
+            nbad += 1
+            if first is None:
+                first = {"lo": lo, "hi": hi, "func": func, "derivative_order": order, "x": xv, "impl": repr(iv), "model": mv}
+    if nbad:
+        res.broke("correspondence BExprF eval/diff vs tf_pwa.variable.Bound(func=...) get_x2y/get_dydx/get_d2ydx2", {"n": nbad, "first": first})
+        ctx.bound_hint = first
+    res.coverage.update({"custom_bound_expressions": len(specs), "custom_bound_points": len(meta), "custom_bound_points_outside_domain": nskip})
+    return len(meta)
+
+
 def correspond(ctx, res):
     variant = probe_variant()
     ctx.variant = variant
     res.notes.append("observed variant of the tree: %r" % variant)
     hook = Hook()
     n = 90 if ctx.quick else 1200
-    lines, runs = [], []
+    lines, runs, hlines = [], [], []
     kinds = {}
     del OUTSIDE_WELL_NAMED[:]
     with patched_random(hook):
         for i in range(n):
-            mode = "safe" if i % 3 == 0 else "wild"
+            mode = "mixed" if i % 6 == 5 else ("safe" if i % 3 == 0 else "wild")
             pure = i % 4 == 1
             seed = ctx.seed * 1000003 + i
             hook.rnd = random.Random(seed ^ 0x5EED)
             polar0, ops = gen_history(seed, mode, pure)
-            steps, toks, last = run_history_real(polar0, ops, hook)
+            steps, toks, last, hyps = run_history_real(polar0, ops, hook)
             for op in ops:
                 kinds[op["k"]] = kinds.get(op["k"], 0) + 1
             flat = []
             for t in toks:
                 flat += t + [";"]
             lines.append("C16 hist %s %s %s %s" % (b01(variant["fixSame"]), b01(variant["fixStd"]), b01(polar0), " ".join(flat[:-1])))
-            runs.append((seed, mode, pure, polar0, ops, steps, last))
+            hlines.append("C16S hyp %s %s %s %s" % (b01(variant["fixSame"]), b01(variant["fixStd"]), b01(polar0), " ".join(flat[:-1])))
+            runs.append((seed, mode, pure, polar0, ops, steps, last, hyps))
     out = ctx.model.query(lines)
+    hout = ctx.model.query(hlines)
     nsteps, ndis, first, nexact = 0, 0, None, 0
     nontriv = set()
-    for (seed, mode, pure, polar0, ops, steps, last), line in zip(runs, out):
+    # the hypotheses of the history theorems, evaluated by the Lean definitions (tieOK / sepOK) on the model, against
+    # their Python renderings evaluated on the real object; and the conclusion of tied_stays_tied_partial on the real object
+    n_named = n_sep = n_outside_sep = n_groups_checked = 0
+    for (seed, mode, pure, polar0, ops, steps, last, hyps), hl in zip(runs, hout):
+        if hl == "bad-op":
+            res.broke("model driver bad-op", "C16S hyp, history seed %d" % seed)
+            break
+        fl = hl.split(",") if hl else []
+        named = all(f[0] == "1" for f in fl)
+        sep = all(f[1] == "1" for f in fl)
+        n_named += named
+        n_sep += named and sep
+        n_outside_sep += named and not sep
+        for j, (op, li, (pn, ps)) in enumerate(zip(ops, last, hyps)):
+            if op["k"] in ("same", "share") and li < len(fl) and (fl[li][0] == "1") != bool(pn):
+                res.broke("correspondence Vars.tieOK vs its rendering on the real object", {"seed": seed, "call": j, "op": op, "lean": fl[li], "python": [pn, ps]})
+                break
+            if op["k"] in ("same", "share") and li < len(fl) and pn and (fl[li][1] == "1") != bool(ps):
+                res.broke("correspondence Vars.sepOK vs its rendering on the real object", {"seed": seed, "call": j, "op": op, "lean": fl[li], "python": [pn, ps]})
+                break
+        if named and sep and variant["fixSame"] and steps:
+            # theorem tied_stays_tied_partial: every same_list group is bound to one object (real names) / partwise (complex)
+            d = steps[-1][1]
+            cell = dict(zip(d["names"], d["part"]))
+            for g in d["same"]:
+                n_groups_checked += 1
+                if all(m in cell for m in g):
+                    ok = len({cell[m] for m in g}) <= 1
+                else:
+                    ok = all(m + "r" in cell and m + "i" in cell for m in g) and len({cell[m + "r"] for m in g}) <= 1 and len({cell[m + "i"] for m in g}) <= 1
+                if not ok:
+                    res.broke("theorem tied_stays_tied_partial vs implementation: a group of same_list is not bound to one object although the history is WellNamed and WellSeparated",
+                              {"seed": seed, "mode": mode, "group": g, "polar0": polar0, "ops": ops})
+                    ctx.hint = {"seed": seed, "mode": mode, "pure": pure, "polar0": polar0, "ops": ops}
+                    break
+    for (seed, mode, pure, polar0, ops, steps, last, hyps), line in zip(runs, out):
         if line == "bad-op":
             ndis += 1
             first = first or {"seed": seed, "what": "model could not parse the history", "ops": ops[:5]}
@@ -869,9 +1106,9 @@ def correspond(ctx, res):
                 if first is None:
                     first = {"seed": seed, "mode": mode, "pure": pure, "step": j, "op": ops[j], "why": why, "polar0": polar0, "ops": ops[: j + 1]}
                 break
-        if len(rdump["same"]) and len(rdump["trainable"]):
+        if steps and len(rdump["same"]) and len(rdump["trainable"]):
             nontriv.add((len(rdump["names"]), len(rdump["trainable"]), len(rdump["same"]), len(rdump["bnd"]), tuple(rdump["part"])))
-    nb = bound_grid(ctx, res)
+    nb = bound_grid(ctx, res) + bound_expr_grid(ctx, res)
     res.coverage.update({
         "traces_validated_against_impl": len(runs),
         "evaluations": nsteps + nb,
@@ -879,10 +1116,14 @@ def correspond(ctx, res):
         "states_compared_bit_exact": nexact,
         "bound_grid_points": nb,
         "distinct_nontrivial": len(nontriv),
-        "rule": "seeded well-phased histories (5-60 calls; real/complex names, Variable shapes (),(2,),(2,2); 1/3 'safe' (avoid the input classes of the listed findings), 2/3 'wild'; 1/4 without any transcendental op) executed on a real VarsManager and on TfPwaV.Vars.step; canonical state (trainable_vars in order, names, partition of names by object identity, values, trainable flags, complex_vars, same_list, bnd_dic keys, init_val keys, polar) + call result compared after EVERY call; non-trivial = distinct final (sizes, partition) with at least one tie group and one free parameter",
+        "rule": "seeded well-phased histories (5-60 calls; real/complex names, Variable shapes (),(2,),(2,2); 1/3 'safe' (avoid the input classes of the listed findings), 1/2 'wild', 1/6 'mixed' (2-6 overlapping tie calls, complex parameters tied as a whole AND through their parts); 1/4 without any transcendental op) executed on a real VarsManager and on TfPwaV.Vars.step; canonical state (trainable_vars in order, names, partition of names by object identity, values, trainable flags, complex_vars, same_list, bnd_dic keys, init_val keys, polar) + call result compared after EVERY call; non-trivial = distinct final (sizes, partition) with at least one tie group and one free parameter",
         "exhaustive": False,
         "op_kinds": kinds,
         "histories_outside_WellNamed": len(OUTSIDE_WELL_NAMED),
+        "histories_WellNamed_by_Lean_tieOK": n_named,
+        "histories_WellNamed_and_WellSeparated": n_sep,
+        "histories_outside_WellSeparated": n_outside_sep,
+        "same_list_groups_checked_tied_on_impl": n_groups_checked,
         "disagreements": ndis,
         "variant": variant,
     })
@@ -904,6 +1145,7 @@ class Oracle:
         self.parent = {}
         self.shared_r = set()
         self.cplx_tie = set()
+        self.part_tie = set()   # real names listed in a real tie / radii listed in set_share_r
 
     def find(self, x):
         self.parent.setdefault(x, x)
@@ -979,6 +1221,7 @@ def search_history(polar0, ops, hook, res, seed, mode, report=True):
     vm = real.vm
     ora = Oracle()
     found = []
+    sep_ok = True   # Vars.WellSeparated so far (rendering of sepOK on the real object before every tie call)
 
     def fail(key, what, j):
         found.append((key, what))
@@ -997,6 +1240,8 @@ def search_history(polar0, ops, hook, res, seed, mode, report=True):
                     cbefore[c] = cvalue(vm, c)
         tr0 = list(vm.trainable_vars)
         tg = set(targets_of(op, real, ora))
+        if not well_sep_op(op, real):
+            sep_ok = False
         out, _ = real.apply(op)
         # oracle bookkeeping: what the caller asked to tie
         if out != ("raise",):
@@ -1007,6 +1252,7 @@ def search_history(polar0, ops, hook, res, seed, mode, report=True):
                     ora.cplx_tie.update(op["names"])
                 else:
                     ora.union(op["names"])
+                    ora.part_tie.update(op["names"])
             elif k == "vsameas":
                 A, B = real.vars[op["a"]], real.vars[op["b"]]
                 for x, y in zip(shape_names(A.name, A.shape), shape_names(B.name, B.shape)):
@@ -1016,19 +1262,23 @@ def search_history(polar0, ops, hook, res, seed, mode, report=True):
                         ora.cplx_tie.update([x, y])
                     else:
                         ora.union([x, y])
+                        ora.part_tie.update([x, y])
             elif k == "share":
                 ora.union([n + "r" for n in op["names"]])
                 ora.shared_r.update(op["names"])
+                ora.part_tie.update(n + "r" for n in op["names"])
             elif k == "vshare":
                 A, B = real.vars[op["a"]], real.vars[op["b"]]
                 for x, y in zip(shape_names(A.name, A.shape), shape_names(B.name, B.shape)):
                     ora.union([x + "r", y + "r"])
                     ora.shared_r.update([x, y])
+                    ora.part_tie.update([x + "r", y + "r"])
             elif k == "vratio":
                 A = real.vars[op["a"]]
                 ns = shape_names(A.name, A.shape)
                 ora.union([n + "r" for n in ns])
                 ora.shared_r.update(ns)
+                ora.part_tie.update(n + "r" for n in ns)
         names = list(vm.variables)
         after = {n: float(vm.variables[n].numpy()) for n in names}
         tr = list(vm.trainable_vars)
@@ -1053,6 +1303,12 @@ def search_history(polar0, ops, hook, res, seed, mode, report=True):
         if bad:
             cp = k in ("same", "vsameas") and (op.get("cplx") or (k == "vsameas" and real.vars[op["a"]].cplx))
             key = "set_same:cplx:existing-group-ignored" if cp else "set_same:merge:follower-not-rebound"
+            # input class of the listed finding: the broken tie class contains a part of a complex parameter that was
+            # tied through that part (real tie / shared radius) AND as a whole (outside Vars.WellSeparated)
+            cl = ora.cls(bad[0], names)
+            # (theorem tied_stays_tied_partial: impossible while the history is WellSeparated, so never attributed then)
+            if not sep_ok and any(x in ora.part_tie and x[-1:] in ("r", "i") and x[:-1] in ora.cplx_tie for x in cl):
+                key = "set_same:whole-and-part:tie-broken"
             fail(key, "tied parameters %s and %s are bound to different objects (values %r / %r) after %s" % (bad[0], bad[1], after[bad[0]], after[bad[1]], k), j)
             break
         # S4: frame — a parameter none of whose tie class is free changes only when explicitly assigned
@@ -1106,7 +1362,8 @@ def search_history(polar0, ops, hook, res, seed, mode, report=True):
                     continue
                 if vm.complex_vars[c] is not True or r_ < 0:
                     # a radius shared with / tied to another phase may legitimately stay as it is
-                    if not (c in ora.shared_r or c in ora.cplx_tie):
+                    # (also through a real tie of its parts, e.g. set_same([c+"r", c+"i"]) ties a radius to its own phase)
+                    if not (c in ora.shared_r or c in ora.cplx_tie or len(ora.cls(c + "r", names)) > 1 or len(ora.cls(c + "i", names)) > 1):
                         badp = (c, r_, p_, "r<0 or not polar")
                         break
                 elif not (-math.pi <= p_ < math.pi + 1e-15):
@@ -1141,15 +1398,14 @@ def bound_search(ctx, res):
     specs = [((-1.0, 2.0), None), ((0.5, None), None), ((None, 3.0), None), ((None, None), None),
              ((round(rnd.uniform(-3, 0), 2), round(rnd.uniform(0.5, 3), 2)), None),
              ((None, -1.5), None), ((None, -0.5), None), ((-1.5, None), None),
-             ((1.0, 3.0), "a+(b-a)/(1+exp(-x))"), ((0.5, None), "a+exp(x)")]
+             ] + CUSTOM_SPECS_QUICK[:4]
     if not ctx.quick or ctx.suspect:
         specs += [((round(rnd.uniform(-3, 0), 2), None), None), ((None, round(rnd.uniform(-3, 3), 2)), None),
-                  ((-2.0, 5.0), "a+(b-a)/(1+exp(-x))"), ((None, 2.0), "b-exp(x)"),
-                  ((-1.0, 1.0), "(b-a)*(tanh(x)+1)/2+a")]
+                  ((None, 2.0), "b-exp(x)")] + CUSTOM_SPECS_MORE[:5]
     n = 0
     for (lo, hi), func in specs:
         try:
-            b = Bound(lo, hi, func=func)
+            b = get_bound(lo, hi, func) if func else Bound(lo, hi, func=func)
         except Exception as e:
             key = "bound:construct:upper-only-le-minus1" if (func is None and lo is None and hi is not None and hi <= -1) else "bound:construct"
             res.fail(key, "Bound(%r, %r, func=%r) raises %s" % (lo, hi, func, type(e).__name__), {"lo": lo, "hi": hi, "func": func})
@@ -1246,7 +1502,7 @@ def search(ctx, res):
             for k2, _ in search_history(polar0, ops, hook, res, -2, "regression:" + key):
                 counts[k2] = counts.get(k2, 0) + 1
         for i in range(n):
-            mode = "safe" if i % 2 == 0 else "wild"
+            mode = "mixed" if i % 5 == 4 else ("safe" if i % 2 == 0 else "wild")
             seed = ctx.seed * 1000003 + 500000 + i
             hook.rnd = random.Random(seed ^ 0xABCD)
             polar0, ops = gen_history(seed, mode, False)
@@ -1298,6 +1554,13 @@ KNOWN_INPUTS = {
         {"k": "ar", "name": "a", "value": 1.0, "range": None, "tr": True},
         {"k": "maskin", "d": {"a": 5.0}},
         {"k": "gad", "tonly": False}]),
+    # Props/C16c.lean: tied_stays_tied_refuted_outside (mixedHistory)
+    "set_same:whole-and-part:tie-broken": (True, [
+        {"k": "ar", "name": "x", "value": 1.0, "range": None, "tr": False},
+        {"k": "ac", "name": "p", "polar": None, "tr": True, "fix_vals": [1.0, 0.0]},
+        {"k": "ac", "name": "q", "polar": None, "tr": True, "fix_vals": [1.0, 0.0]},
+        {"k": "same", "names": ["x", "qi"], "cplx": False},
+        {"k": "same", "names": ["p", "q"], "cplx": True}]),
 }
 
 
@@ -1311,6 +1574,10 @@ KNOWN_INPUTS = {
 #  M4 refresh_vars bound loop drops the `not in trainable_vars` skip          -> search frame:refresh
 #  M5 Bound.get_y2x lower clip assigns upper                                  -> search bound:clip + BoundF correspondence
 #  M6 mask_params does not restore the old mask                               -> search mask:not-restored
+#  MA Bound.get_func: `a: self.lower if self.lower else -1e9` (a = 0.0 read as "no bound")   -> BExprF + BoundF correspondence, search
+#  MB Bound.get_func: inv[0] instead of inv[-1]                                -> BoundF correspondence, search bound:inverse
+#  MC set_same(cplx): the i-part call of same_real gets no followers           -> correspondence (mixed history) + search on MC:cplx-merge-two-groups
+#  MD set_same: `for i in tmp_list[:-1]` (last member of the last merged group dropped) -> correspondence + search set_same:merge:follower-not-rebound
 REGRESSION_INPUTS = {
     "C16-01:free-first-fixed-second-refresh": (True, [
         {"k": "ac", "name": "F", "polar": None, "tr": True, "fix_vals": [1.0, 0.0]},
@@ -1323,6 +1590,31 @@ REGRESSION_INPUTS = {
         {"k": "ar", "name": "a", "value": 1.0, "range": None, "tr": True},
         {"k": "ar", "name": "a", "value": 2.0, "range": None, "tr": True},
         {"k": "gav", "vif": False}]),
+    # merging two complex groups through their followers: the r AND the i parts of every member must follow the new head
+    "MC:cplx-merge-two-groups": (True, [
+        {"k": "ac", "name": "a", "polar": True, "tr": True, "fix_vals": [1.0, 0.0]},
+        {"k": "ac", "name": "b", "polar": True, "tr": True, "fix_vals": [1.0, 0.0]},
+        {"k": "ac", "name": "c", "polar": True, "tr": True, "fix_vals": [1.0, 0.0]},
+        {"k": "ac", "name": "d", "polar": True, "tr": False, "fix_vals": [2.0, 0.5]},
+        {"k": "same", "names": ["a", "b"], "cplx": True},
+        {"k": "same", "names": ["c", "d"], "cplx": True},
+        {"k": "same", "names": ["b", "d"], "cplx": True},
+        {"k": "set", "name": "ai", "v": 0.25, "vif": False},
+        {"k": "gad", "tonly": False}]),
+    # three real groups merged by one call that lists followers only
+    "MD:real-merge-three-groups": (True, [
+        {"k": "ar", "name": "a", "value": 1.0, "range": None, "tr": True},
+        {"k": "ar", "name": "b", "value": 2.0, "range": None, "tr": True},
+        {"k": "ar", "name": "c", "value": 3.0, "range": None, "tr": False},
+        {"k": "ar", "name": "d", "value": 4.0, "range": None, "tr": True},
+        {"k": "ar", "name": "e", "value": 5.0, "range": None, "tr": True},
+        {"k": "ar", "name": "f", "value": 6.0, "range": None, "tr": True},
+        {"k": "same", "names": ["a", "b"], "cplx": False},
+        {"k": "same", "names": ["c", "d"], "cplx": False},
+        {"k": "same", "names": ["e", "f"], "cplx": False},
+        {"k": "same", "names": ["b", "d", "f"], "cplx": False},
+        {"k": "sal", "l": [7.0], "vif": False},
+        {"k": "gad", "tonly": False}]),
     "M4:fixed-bounded-refresh": (True, [
         {"k": "ar", "name": "a", "value": 1.0, "range": None, "tr": False},
         {"k": "ar", "name": "b", "value": 1.0, "range": None, "tr": True},
@@ -1355,7 +1647,7 @@ def replay(ctx, payload):
 
 
 MANIFEST = {
-    "text": "Lean theorems about TfPwaV.Vars.step, a statement-by-statement state-machine model of VarsManager (25 public calls), generic over the value arithmetic (so they hold for IEEE doubles): for EVERY well-phased history (create; fix/free; tie; bound; arbitrary interleavings) the free list has no duplicates, only bound names, and no two free names share a variable object (inv_reachable for the pre-fix set_same; inv_reachable_patched for the set_same of commit 647ec00 under the naming hypothesis WellNamed, shown necessary by the kernel-decided counterexample well_named_needed); in every state satisfying the invariant the patched set_same binds all listed names and all members of merged groups to one object (set_same_ties_patched, set_same_ties_patched_cplx); in EVERY state set_all(list)/set_trans_var/refresh_vars never move a parameter whose object has no free name, set/set_all(dict)/rp2xy/xy2rp move only objects of names they assign (fixed_frame_bulk, frame_targeted); names bound to one object stay bound and read equal through every history of value-level calls (bindings_stable, tied_read_equal); set_all(get_all_dic()) = identity on the whole state when no mask is active (getall_setall_id) and writes the mask otherwise; kernel-decided counterexample that merging two tie groups breaks a tie on the unchanged tree and not after the patch. Over the reals: xy->polar and the sign step of std_polar preserve the complex value with r>=0, _std_polar_angle lands in [-pi,pi) preserving e^{i phi}; for the three built-in Bound forms x2y(y2x y)=y on the range, clipping outside, x2y maps R into the range, dydx and d2ydx2 are the derivatives (HasDerivAt).",
-    "note": "The model is tied to tf_pwa.variable by a differential run: seeded well-phased histories (5-60 calls, real/complex names, Variable shapes) on a real VarsManager and on the model, comparing the canonical state (free list in order, partition of names by object identity, values, flags, complex_vars, same_list, bnd_dic keys, init_val keys, polar) and the call result after EVERY call; bit-exact until the first transcendental op of a history, 1e-12 afterwards; Bound functions and utils.std_polar on grids incl. end points. The harness observes whether the tree has the unpatched or patched set_same / std_polar and selects the model variant. Not proved, only validated: that ties made by earlier set_same calls survive later set_same calls when a complex parameter is tied both as a whole and through its parts (excluded from the generators); custom Bound expressions (sympy); TensorFlow/sympy numerics. Five findings of this check were repaired in /repo (c575cdd, e978164, 647ec00; kind 'fixed' in known_findings.jsonl); two remain listed (shared-radius coordinate ops, set_all(get_all_dic()) under a mask).",
-    "technique": "Lean 4 proof (induction over operation histories of an executable state-machine model; real analysis for Bound / polar forms) + differential correspondence after every call + model-independent invariant search on the real object",
+    "text": "Lean theorems about TfPwaV.Vars.step, a statement-by-statement state-machine model of VarsManager (25 public calls), generic over the value arithmetic (so they hold for IEEE doubles). For EVERY well-phased history (create; fix/free; tie; bound; arbitrary interleavings), with repeated / overlapping set_same / sameas / set_share_r calls on real and complex names: the free list has no duplicates, only bound names, no two free names share a variable object and every same_list group has at most one free member (inv_reachable for the pre-fix set_same; inv_reachable_patched / counted_once_every_named_history for the set_same of the current tree (commit 647ec00) under the naming hypothesis WellNamed, shown necessary by the kernel-decided counterexample well_named_needed; no separation hypothesis, i.e. also when a complex parameter is tied as a whole AND through its parts). tied_stays_tied_partial / tie_groups_read_equal: if in addition every complex parameter is tied as a whole or through its parts, not both (WellSeparated, a decidable predicate evaluated by the Lean definition on every generated history), all members of every same_list group are bound to one object and read the same value, groups are pairwise disjoint and only grow (ties_only_grow); tied_stays_tied_refuted_outside: kernel-decided witness that outside WellSeparated a later call breaks an earlier tie (reproduced on the real VarsManager: listed finding set_same:whole-and-part:tie-broken). In every state satisfying the invariant the patched set_same binds all listed names and all members of merged groups to one object (set_same_ties_patched, _cplx); in EVERY state set_all(list)/set_trans_var/refresh_vars never move a parameter whose object has no free name, set/set_all(dict)/rp2xy/xy2rp move only objects of names they assign (fixed_frame_bulk, frame_targeted, coordinate_op_frame_partial with the shared-radius witness shared_radius_coordinate_op_moves_partner); names bound to one object stay bound and read equal through every history of value-level calls (bindings_stable, tied_read_equal); set_all(get_all_dic()) = identity on the whole state when no masked name is bound (getall_setall_id, getall_setall_id_partial) and writes the mask otherwise (witness). Over the reals: xy->polar and the sign step of std_polar preserve the complex value with r>=0, _std_polar_angle lands in [-pi,pi) preserving e^{i phi}; for the three built-in Bound forms x2y(y2x y)=y on the range, clipping outside, x2y maps R into the range, dydx and d2ydx2 are the derivatives (HasDerivAt). Custom Bound expressions (Props/C16b): an expression AST (x, constants, + - * /, neg, exp, log, sin, cos, tanh, sqrt, natural powers) with eval and symbolic diff; diff_is_deriv: for EVERY expression and every real x satisfying the side conditions (denominators != 0, log/sqrt arguments > 0; Dom, decided by the executable domB: domB_decides_dom) HasDerivAt (eval e) (eval (diff e) x) x; Dom is closed under diff, so the second slope and every higher one are derivatives too (second_slope_is_deriv, every_order_is_deriv); expressions without / log sqrt have no side condition (smooth_everywhere); for a+(b-a)/(1+exp(-x)), a+exp(x), b-exp(-x), (a+b)/2+(b-a)/2*tanh(x): closed forms of value / slope / second slope at every real x, range strictly inside the bounds and strict monotonicity; the three built-in forms written in the AST agree with the Bound model (builtin_forms_agree).",
+    "note": "The model is tied to tf_pwa.variable by a differential run: seeded well-phased histories (5-60 calls, real/complex names, Variable shapes; modes safe / wild / mixed = overlapping ties of complex parameters as a whole and through parts) on a real VarsManager and on the model, comparing the canonical state (free list in order, partition of names by object identity, values, flags, complex_vars, same_list, bnd_dic keys, init_val keys, polar) and the call result after EVERY call; bit-exact until the first transcendental op of a history, 1e-12 afterwards; the hypotheses tieOK / sepOK of the history theorems are computed by the Lean definitions (C16S) and compared with their renderings on the real object, and on every history satisfying them the conclusion (each same_list group on one object) is checked on the real object; Bound functions and utils.std_polar on grids incl. end points. Custom expressions: the harness parses the string with its own parser, sends the AST to the Float instance of the same template the theorems are about and compares eval / diff / diff-of-diff with get_x2y / get_dydx / get_d2ydx2 of the real Bound (sympy) on grids to 1e-12 (7 strings quick, 14 thorough, incl. the built-in forms through the generic path); the search checks x2y(y2x(y)) = y, range and finite-difference slopes. The harness observes whether the tree has the unpatched or patched set_same / std_polar and selects the model variant. Not proved, only validated: that sympy's diff / solve compute the derivative / inverse of the parsed expression (grids); TensorFlow/sympy numerics; histories outside WellNamed. Five findings of this check were repaired in /repo (c575cdd, e978164, 647ec00; kind 'fixed' in known_findings.jsonl); three remain listed (shared-radius coordinate ops, set_all(get_all_dic()) under a mask, a tie lost when a complex parameter is tied as a whole and through a part).",
+    "technique": "Lean 4 proof (induction over operation histories of an executable state-machine model; structural induction over an expression AST with Mathlib HasDerivAt; real analysis for Bound / polar forms) + differential correspondence after every call + model-independent invariant search on the real object",
 }
